@@ -621,3 +621,60 @@ def r6(rr, repo):
         first_close = min([c.lineno for c in closes] or [10 ** 9])
         courtesy = [c for c in q.calls_in(fd) if U(c.func).endswith('send_multipart') or U(c.func).endswith('send_push')]
         rr.ob(f'{cls}.destroy(): the courtesy CLOSE and the linger sleep precede the closes', bool(sl) and bool(courtesy) and max(c.lineno for c in courtesy) < sl[0].lineno < first_close, zm, fd, key=f'linger|{cls}')
+
+
+@rule('C08.R7', "an exit announcement reaches the neighbour's handler whenever it arrives: on both sides of a connection the out-of-band callback is guarded by nothing but \"this is an out-of-band message\" "
+                '(not by the peer being registered, connected or having asked for a frame), it is the callback Filter.init installed, and send_exit_msg addresses every endpoint')
+def r7(rr, repo):
+    Z = 'openfilter/filter_runtime/zeromq.py'
+    zmod = repo.module(Z)
+    sites = []
+    for fnname in ('ZMQSender.send.poll_recv', 'ZMQReceiver.recv.recv_once'):
+        _, fn = repo.find(f'{Z}::{fnname}')
+        calls = [c for c in q.calls_in(fn) if U(c.func) == 'self.message_oob']
+        rr.floor(f'out-of-band deliveries in {fnname}', len(calls), 1, zmod, fn)
+        for c in calls:
+            sites.append(c)
+            g = []
+            for t, pol in q.guards_of(c, stop=fn):
+                if pol and isinstance(t, ast.BoolOp) and isinstance(t.op, ast.And):
+                    g.extend((v, True) for v in t.values)
+                else:
+                    g.append((t, pol))
+            extra = []
+            for t, pol in g:
+                txt = U(t)
+                # loop conditions of the receive loops (`while socks := poller.poll(..)`, `while socks`, `while True`) and the message-kind tests
+                if isinstance(t, ast.NamedExpr) or txt in ('socks', 'True') or 'poller.poll(' in txt:
+                    continue
+                names = {x.id for x in ast.walk(t) if isinstance(x, ast.Name)}
+                consts = {x for x in names if x.startswith('MSG_ID_')}
+                if consts and names - consts <= {'prev_id', 'msg_id'} and (pol or 'MSG_ID_OOB' not in consts):
+                    continue     # a test of the message id against the special-id constants
+                extra.append(('' if pol else 'not ') + txt)
+            rr.ob(f'{fnname}: the out-of-band message is handed to the callback whenever one arrives (no condition on the peer: registered, connected, has requested ...)', not extra, zmod, c,
+                  witness=' && '.join(extra)[:200] or 'only message-kind tests', key=f'oob-unconditional|{fnname}')
+    # the callback is the constructor argument (defaulting to a no-op), stored once
+    for cls in ('ZMQSender', 'ZMQReceiver'):
+        _, init = repo.find(f'{Z}::{cls}.__init__')
+        st = [n for n in ast.walk(init) if isinstance(n, ast.Assign) and any(U(t) == 'self.message_oob' for t in n.targets)]
+        ok = len(st) == 1 and isinstance(st[0].value, ast.IfExp) and U(st[0].value.orelse) == 'message_oob' and 'message_oob is None' in U(st[0].value.test)
+        rr.ob(f'{cls} keeps the out-of-band callback it was constructed with', ok, zmod, st[0] if st else init, witness=U(st[0].value)[:100] if st else 'no store', key=f'oob-callback|{cls}')
+        others = [n for n in ast.walk(repo.find(f'{Z}::{cls}')[1]) if isinstance(n, ast.Assign) and any(U(t) == 'self.message_oob' for t in n.targets) and n not in st]
+        rr.ob(f'{cls} never replaces the callback later', not others, zmod, others[0] if others else init, key=f'oob-callback-once|{cls}')
+    # MQ hands the handler to every endpoint it builds and send_exit_msg addresses every endpoint kind
+    mqm, mq_init = repo.find(f'{MQF}::MQ.__init__')
+    _, exitmsg = repo.find(f'{MQF}::MQ.send_exit_msg')
+    ends = [c for c in q.calls_in(mq_init) if U(c.func) in ('ZMQSender', 'ZMQReceiver', 'MQSender', 'MQReceiver')]
+    rr.floor('endpoints constructed by MQ', len(ends), 2, mqm, mq_init)
+    attrs = set()
+    for n in ast.walk(mq_init):
+        if isinstance(n, ast.Assign) and any(isinstance(c, ast.Call) and U(c.func) in ('ZMQSender', 'ZMQReceiver') for c in ast.walk(n.value)):
+            attrs |= {U(t) for t in n.targets if U(t).startswith('self.')}
+    oob = {U(c.func.value) for c in q.calls_in(exitmsg) if isinstance(c.func, ast.Attribute) and c.func.attr == 'send_oob'}
+    rr.ob('send_exit_msg announces on every endpoint MQ owns', bool(attrs) and attrs <= oob, mqm, exitmsg, witness=f'endpoints {sorted(attrs)} announced on {sorted(oob)}', key='exit-msg-all-endpoints')
+    for c in ends:
+        passed = [U(a) for a in c.args] + [U(k.value) for k in c.keywords]
+        data_end = not any('metrics' in U(t) for n in ast.walk(mq_init) if isinstance(n, ast.Assign) and any(x is c for x in ast.walk(n.value)) for t in n.targets)
+        if data_end:
+            rr.ob(f'MQ passes its exit-message handler to the {U(c.func)} it builds', any('on_exit_msg' in p or 'message_oob' in p or 'oob' in p for p in passed), mqm, c, witness=', '.join(passed)[:160], key=f'handler-passed|{U(c.func)}')
